@@ -616,8 +616,20 @@ def build_script(sc, duts=None, name="cal", solve=True):
     sc.emit_header(s)
     uid = [0]
     lines["add"] = []
+    bursts = getattr(sc, "foreign_bursts", None)
+
+    def foreign(i):
+        # parameters that belong to nobody, created in the same vnacal_t
+        # before and between the standards: the handles the calibration
+        # sees are then sparse instead of 3, 4, 5 ...
+        if bursts:
+            for j in range(bursts[i % len(bursts)]):
+                s.op("fz%d_%d=vnacal_make_scalar_parameter $vc %s" % (
+                    i, j, cx(0.01 * (i + 1) + 0.02j * (j + 1))))
+    foreign(0)
     for i, st in enumerate(sc.stds):
         lines["add"].append(sc.emit_std(s, st, i, uid=uid))
+        foreign(i + 1)
     if solve:
         lines["solve"] = s.op("vnacal_new_solve $vn")
         lines["addcal"] = s.op("ci=vnacal_add_calibration $vc %s $vn" % qs(name))
